@@ -169,7 +169,7 @@ func ZZ_C03_hex_literals() {
 	zzIntLiteral(1+zz.Choose(3), 16, []string{"0x", "0X"}[zz.Choose(2)], zz.Choose(2) == 1)
 }
 func ZZ_C03_binary_literals() {
-	zzIntLiteral(1+zz.Choose(4), 2, []string{"0b", "0B"}[zz.Choose(2)], false)
+	zzIntLiteral(1+zz.Choose(4), 2, []string{"0b", "0B"}[zz.Choose(2)], zz.Choose(2) == 1)
 }
 
 // ZZ_C03_int64_edge: concrete 18-digit prefix + symbolic last digit: accepted
@@ -209,7 +209,7 @@ func ZZ_C03_float_and_malformed() {
 	}
 	cases := []c{{"1.5", true, 1.5}, {"0.1", true, 0.1}, {"1e3", true, 1000}, {"1E3", true, 1000}, {"2.5e-3", true, 0.0025}, {"1e+2", true, 100},
 		{"10.0", true, 10}, {"1.", true, 1}, {"1e400", false, 0}, {"1.2.3", false, 0}, {"1e", false, 0}, {"0x", false, 0}, {"1a", false, 0},
-		{"0b2", false, 0}, {"1e5e5", false, 0}, {"-1.5", true, -1.5}, {"123456789012345678901234567890", false, 0}}
+		{"0b2", false, 0}, {"1e5e5", false, 0}, {"-1.5", true, -1.5}, {"-1e3", true, -1000}, {"-2.5e-3", true, -0.0025}, {"-1.", true, -1}, {"-1e400", false, 0}, {"-0b2", false, 0}, {"-0x", false, 0}, {"123456789012345678901234567890", false, 0}}
 	k := cases[zz.Choose(len(cases))]
 	rv, ok := zzParseLiteral(k.src)
 	if k.ok {
@@ -548,6 +548,32 @@ func ZZ_C03_ternary() {
 // ZZ_C03_hex_binary_edge: hexadecimal and binary literals at the int64 edge:
 // accepted iff representable in int64 (0x8000000000000000 is not).
 func ZZ_C03_hex_binary_edge() {
+	if zz.Choose(3) == 2 {
+		// the most negative int64 in every base, and one beyond it
+		zeros := ""
+		for i := 0; i < 63; i++ {
+			zeros += "0"
+		}
+		type c struct {
+			src string
+			ok  bool
+		}
+		cases := []c{{"-0x8000000000000000", true}, {"-0x8000000000000001", false}, {"-0b1" + zeros, true}, {"-0b1" + zeros[:61] + "1", true}, {"-0b1" + zeros + "0", false},
+			{"-9223372036854775808", true}, {"-9223372036854775809", false}, {"0x8000000000000000", false}, {"0b1" + zeros, false}}
+		k := cases[zz.Choose(len(cases))]
+		rv, ok := zzParseLiteral(k.src)
+		if k.ok {
+			want := int64(-9223372036854775808)
+			if k.src == "-0b1"+zeros[:61]+"1" {
+				want = -(1<<62 + 1)
+			}
+			zz.Assert(ok && rv.Kind() == reflect.Int64 && rv.Int() == want, "C03.negative-edge/representable-accepted/"+k.src[:4])
+		} else {
+			_, err := ParseSrc(k.src)
+			zz.Assert(err != nil, "C03.negative-edge/not-representable-rejected/"+k.src[:4])
+		}
+		return
+	}
 	if zz.Choose(2) == 0 {
 		// "0x" + d + 15 f's, d a symbolic hex digit
 		ds, vals := zzDigits(1, true)
